@@ -258,6 +258,14 @@ func (c c07Case) userCancels() int {
 
 func (c c07Case) hasUserCancel() bool { return c.userCancels() > 0 }
 
+// raceKnown: the reducer writes a result and something may call cancel.
+func (c c07Case) raceKnown() bool {
+	if (c.Entry != "mr" && c.Entry != "chan") || c.Red.Early+c.Red.Late == 0 {
+		return false
+	}
+	return c.hasUserCancel() || c.ctxNear()
+}
+
 func (c c07Case) ctxNear() bool { return c.Ctx != "" && c.CtxAt < c07Far }
 
 // wedgeProne: a generator panic that nobody receives any more (known finding
@@ -588,6 +596,14 @@ func c07Interp(t *testing.T, c c07Case) (v kit.Verdict) {
 	r := c07NewRun(c)
 	if c.wedgeProne() {
 		return kit.Verdict{Excluded: true, Classes: []string{"excluded:wedge-prone"}}
+	}
+	if c.Zero && c.raceKnown() && os.Getenv("VERIF_C07_RACE_ALL") == "" && kit.KnownOpen("C07", c07KnownID2) {
+		// Under -race the detector itself reports the close(output)/send pair of the
+		// open finding write-close-race and fails the whole process, which cannot
+		// be attributed to a case. While that finding is open its trigger (a reducer
+		// write together with a cancel or a context that gets done) is left out of
+		// the contention unit; it stays in the virtual-time unit.
+		return kit.Verdict{Excluded: true, Classes: []string{"excluded:known-write-close-race"}}
 	}
 	res := kit.Bubble(t, r.run)
 	return r.judge(res)
@@ -1144,7 +1160,81 @@ func TestVerif_C07_zz_loop(t *testing.T) {
 	fmt.Fprintf(os.Stderr, "C07 loop: %d of %d attempts failed\n", fails, n)
 }
 
+// ==== C07-TESTS: everything above this line is copied verbatim into the race unit (lib/errorx) by harness/C07/sync-race-unit.sh
+
+// c07Enumerate: small-scope exhaustive enumeration of MapReduce calls.
+// quick:    workers 1..2, 1..2 items with delay 0..1 / plain|cancel|panic / one value each,
+//           reducer take all|0|1 x result none|late|early x plain|cancel|panic, ctx none|deadline 0..1
+// thorough: delays 0..2, 0..2 values per item, ctx deadline 0..2 in addition.
+func c07Enumerate(thorough bool) func(yield func(c07Case) bool) {
+	ds, ws, ctxs := []int{0, 1}, []int{1}, []int{-1, 0, 1}
+	if thorough {
+		ds, ws, ctxs = []int{0, 1, 2}, []int{0, 1, 2}, []int{-1, 0, 1, 2}
+	}
+	acts := []string{"", "cancel", "panic"}
+	var opts []c07Item
+	for _, d := range ds {
+		for _, w := range ws {
+			for _, a := range acts {
+				opts = append(opts, c07Item{D: d, W: w, A: a})
+			}
+		}
+	}
+	return func(yield func(c07Case) bool) {
+		var items func(n int, cur []c07Item, f func([]c07Item) bool) bool
+		items = func(n int, cur []c07Item, f func([]c07Item) bool) bool {
+			if n == 0 {
+				return f(cur)
+			}
+			for _, o := range opts {
+				if !items(n-1, append(cur, o), f) {
+					return false
+				}
+			}
+			return true
+		}
+		for w := 1; w <= 2; w++ {
+			for n := 1; n <= 2; n++ {
+				ok := items(n, nil, func(its []c07Item) bool {
+					for _, take := range []int{-1, 0, 1} {
+						for rw := 0; rw < 3; rw++ {
+							for _, ra := range acts {
+								for _, at := range ctxs {
+									c := c07Case{Entry: "mr", HasW: true, W: w, GenPanic: -1,
+										Items: append([]c07Item(nil), its...),
+										Red:   c07Red{Take: take, A: ra}}
+									switch rw {
+									case 1:
+										c.Red.Late = 1
+									case 2:
+										c.Red.Early = 1
+									}
+									if at >= 0 {
+										c.Ctx, c.CtxAt = "deadline", at
+									}
+									if !yield(c) {
+										return false
+									}
+								}
+							}
+						}
+					}
+					return true
+				})
+				if !ok {
+					return
+				}
+			}
+		}
+	}
+}
+
+func TestVerif_C07_exhaustive(t *testing.T) {
+	kit.Enumerate(t, "C07", "mr-exhaustive", c07Enumerate(kit.Thorough()),
+		func(c c07Case) kit.Verdict { return c07Interp(t, c) })
+}
+
 func TestVerif_C07_mapreduce(t *testing.T) {
-	kit.Run(t, "C07", "mr-random", kit.Opts{Quick: 4000, Thorough: 480000}, c07Gen(false),
+	kit.Run(t, "C07", "mr-random", kit.Opts{Quick: 20000, Thorough: 800000}, c07Gen(false),
 		func(c c07Case) kit.Verdict { return c07Interp(t, c) })
 }
